@@ -1181,6 +1181,175 @@ fn streaming_case(ctx: &mut Ctx, rng: &mut ChaCha20Rng) {
     }
 }
 
+/// Multi-point, multi-polynomial relation of the streaming verifier:
+/// e(sum_i eta^i C_i - [I(tau)]_1, h) == e(pi, [Z(tau)]_2), I = sum_i eta^i I_i with I_i the interpolant of the
+/// claimed values of polynomial i over the points, Z the vanishing polynomial of the points.
+fn streaming_multi_case(ctx: &mut Ctx, rng: &mut ChaCha20Rng) {
+    use super::offtrait::{eval_le, stream_poly, stream_world};
+    use ark_poly_commit::streaming_kzg::{Commitment, EvaluationProof};
+    let w = match stream_world(rng, 64) {
+        Ok(w) => w,
+        Err(_) => return ctx.skipped("baseline", "setup refused"),
+    };
+    let npolys = 1 + (rng.next_u32() % 4) as usize;
+    let mut polys: Vec<Vec<Fr>> = (0..npolys).map(|_| stream_poly(&w, rng).0).collect();
+    // half of the cases carry a zero, constant or linear polynomial at a drawn list position
+    let special = if rng.next_u32() % 2 == 0 {
+        let i = (rng.next_u32() as usize) % npolys;
+        let kind = rng.next_u32() % 3;
+        polys[i] = match kind {
+            0 => vec![Fr::zero()],
+            1 => vec![Fr::rand(rng)],
+            _ => if w.max_degree >= 1 { vec![Fr::rand(rng), Fr::rand(rng)] } else { vec![Fr::rand(rng)] },
+        };
+        Some((i, ["zero", "constant", "linear"][kind as usize]))
+    } else {
+        None
+    };
+    let npts = 1 + (rng.next_u32() as usize) % w.max_pts;
+    let mut pts: Vec<Fr> = Vec::new();
+    while pts.len() < npts {
+        let x = Fr::rand(rng);
+        if !pts.contains(&x) {
+            pts.push(x);
+        }
+    }
+    let eta: Fr = if rng.next_u32() % 4 == 0 { Fr::from(rng.next_u64()) } else { Fr::rand(rng) };
+    let r = guard(|| {
+        let refs: Vec<&Vec<Fr>> = polys.iter().collect();
+        (w.ck.batch_commit(&polys), w.ck.batch_open_multi_points(&refs, &pts, &eta))
+    });
+    let (comms, pf) = match r {
+        Ok(x) => x,
+        Err(_) => return ctx.skipped("baseline", "honest pipeline refused"),
+    };
+    let (g1, g2) = w.ck.verif_powers();
+    let (g1, g2) = (g1.to_vec(), g2.to_vec());
+    if g2.len() < npts + 1 {
+        return ctx.skipped("baseline", "key holds too few G2 powers for the point set");
+    }
+    // vanishing polynomial and Lagrange basis, little-endian
+    let mul_lin = |a: &[Fr], x: &Fr| -> Vec<Fr> {
+        let mut o = vec![Fr::zero(); a.len() + 1];
+        for (i, c) in a.iter().enumerate() {
+            o[i + 1] += c;
+            o[i] -= *x * c;
+        }
+        o
+    };
+    let mut zpoly = vec![Fr::one()];
+    for x in &pts {
+        zpoly = mul_lin(&zpoly, x);
+    }
+    let basis: Vec<Vec<Fr>> = (0..npts)
+        .map(|j| {
+            let mut b = vec![Fr::one()];
+            let mut den = Fr::one();
+            for (m, x) in pts.iter().enumerate() {
+                if m != j {
+                    b = mul_lin(&b, x);
+                    den *= pts[j] - x;
+                }
+            }
+            let inv = den.inverse().unwrap();
+            b.iter().map(|c| *c * inv).collect()
+        })
+        .collect();
+    let zt = crate::oracle::naive_msm(&g2[..npts + 1], &zpoly);
+    let h = g2[0];
+    let reference = |cs: &[G1], ps: &[Fr], evs: &[Vec<Fr>], proof: G1| -> Result<bool, String> {
+        if cs.len() != evs.len() || evs.iter().any(|e| e.len() != ps.len()) {
+            return Err("shape".into());
+        }
+        // the interpolation basis belongs to `ps`; only called with ps == pts or a set of the same size
+        let mut lhs = <E as Pairing>::G1::zero();
+        let mut interp = vec![Fr::zero(); ps.len()];
+        let mut e = Fr::one();
+        let local_basis: Vec<Vec<Fr>> = if ps == &pts[..] {
+            basis.clone()
+        } else {
+            (0..ps.len())
+                .map(|j| {
+                    let mut b = vec![Fr::one()];
+                    let mut den = Fr::one();
+                    for (m, x) in ps.iter().enumerate() {
+                        if m != j {
+                            b = mul_lin(&b, x);
+                            den *= ps[j] - x;
+                        }
+                    }
+                    let inv = den.inverse().unwrap();
+                    b.iter().map(|c| *c * inv).collect()
+                })
+                .collect()
+        };
+        let zt_local = if ps == &pts[..] {
+            zt
+        } else {
+            let mut zp = vec![Fr::one()];
+            for x in ps {
+                zp = mul_lin(&zp, x);
+            }
+            crate::oracle::naive_msm(&g2[..ps.len() + 1], &zp)
+        };
+        for (c, ev) in cs.iter().zip(evs) {
+            lhs += c.mul(e);
+            for (j, y) in ev.iter().enumerate() {
+                for (k, b) in local_basis[j].iter().enumerate() {
+                    interp[k] += e * y * b;
+                }
+            }
+            e *= eta;
+        }
+        lhs -= crate::oracle::naive_msm(&g1[..interp.len()], &interp);
+        Ok(E::pairing(lhs, h) == E::pairing(proof, zt_local))
+    };
+    let evals: Vec<Vec<Fr>> = polys.iter().map(|p| pts.iter().map(|x| eval_le(p, x)).collect()).collect();
+    let cpts: Vec<G1> = comms.iter().map(|c| c.verif_point()).collect();
+    let desc = json!({"max_degree": w.max_degree, "lens": polys.iter().map(|p| p.len()).collect::<Vec<_>>(), "npoints": npts,
+        "special": special.map(|(i, k)| json!({"position": i, "kind": k}))});
+    let i = special.map(|(i, _)| i).filter(|_| rng.next_u32() % 2 == 0).unwrap_or((rng.next_u32() as usize) % npolys);
+    let j = (rng.next_u32() as usize) % npts;
+    let d = Fr::rand(rng);
+    let mut cases: Vec<(String, Vec<G1>, Vec<Fr>, Vec<Vec<Fr>>, G1)> = vec![("honest".into(), cpts.clone(), pts.clone(), evals.clone(), pf.0)];
+    {
+        let mut c2 = cpts.clone();
+        c2[i] = rg1(rng);
+        cases.push(("commitment".into(), c2, pts.clone(), evals.clone(), pf.0));
+        let mut c3 = cpts.clone();
+        c3[i] = (c3[i].into_group() + g1[0].mul(d)).into_affine();
+        cases.push(("commitment:shifted-by-constant".into(), c3.clone(), pts.clone(), evals.clone(), pf.0));
+        let mut e2 = evals.clone();
+        e2[i][j] += Fr::one();
+        cases.push(("value".into(), cpts.clone(), pts.clone(), e2, pf.0));
+        let mut p2 = pts.clone();
+        p2[j] += Fr::one();
+        if !pts.contains(&p2[j]) {
+            cases.push(("point".into(), cpts.clone(), p2, evals.clone(), pf.0));
+        }
+        cases.push(("proof".into(), cpts.clone(), pts.clone(), evals.clone(), rg1(rng)));
+        // the commitment moved by d*g together with every value of that polynomial moved by d: a true statement
+        let mut e3 = evals.clone();
+        for y in e3[i].iter_mut() {
+            *y += d;
+        }
+        cases.push(("compensated:commitment+values".into(), c3, pts.clone(), e3, pf.0));
+    }
+    for (name, cs, ps, evs, p) in cases {
+        let lib = match guard(|| {
+            let cc: Vec<Commitment<E>> = cs.iter().map(|c| Commitment::<E>::verif_from_point(*c)).collect();
+            w.vk.verify_multi_points(&cc, &ps, &evs, &EvaluationProof::<E>(p), &eta).is_ok()
+        }) {
+            Ok(true) => Out::Accept,
+            Ok(false) => Out::Reject,
+            Err(e) => Out::Panic(e),
+        };
+        let mut dd = desc.clone();
+        dd["position"] = json!(i);
+        compare(ctx, "streaming::verify_multi_points", &name, &dd, &lib, reference(&cs, &ps, &evs, p));
+    }
+}
+
 pub fn run(ctx: &mut Ctx) {
     crate::schemes::set_custom_params(true);
     let n = ctx.n(60, 1200);
@@ -1195,4 +1364,5 @@ pub fn run(ctx: &mut Ctx) {
     ctx.run_cases("kzg10", n, |ctx, _i, rng| kzg10_case(ctx, rng));
     ctx.run_cases("mlpst", n / 2, |ctx, _i, rng| mlpst_case(ctx, rng));
     ctx.run_cases("streaming", n, |ctx, _i, rng| streaming_case(ctx, rng));
+    ctx.run_cases("streaming/multi", n, |ctx, _i, rng| streaming_multi_case(ctx, rng));
 }
